@@ -2506,7 +2506,7 @@ class VM:
             result = callee(*args)
             self.stack.append(native_result(result))
         else:
-            raise JSTypeError(f"{callee} is not a function")
+            raise JSTypeError(f"{self._describe(callee)} is not a function")
 
     def _call_method(
         self, method: JSValue, this_val: JSValue, args: List[JSValue]
@@ -2524,7 +2524,7 @@ class VM:
             result = method(*args)
             self.stack.append(native_result(result))
         else:
-            raise JSTypeError(f"{method} is not a function")
+            raise JSTypeError(f"{self._describe(method)} is not a function")
 
     def _call_callback(
         self, callback: JSValue, args: List[JSValue], this_val: JSValue = None
@@ -2624,7 +2624,7 @@ class VM:
             result = callback(*args)
             return native_result(result)
         else:
-            raise JSTypeError(f"{callback} is not a function")
+            raise JSTypeError(f"{self._describe(callback)} is not a function")
 
     def _invoke_js_function(
         self,
@@ -2729,7 +2729,24 @@ class VM:
             result = constructor._call_fn(*args)
             self.stack.append(result)
         else:
-            raise JSTypeError(f"{constructor} is not a constructor")
+            raise JSTypeError(f"{self._describe(constructor)} is not a constructor")
+
+    @staticmethod
+    def _describe(value: JSValue) -> str:
+        """What an error message says about a value: its JavaScript appearance, never the
+        host's representation of it (which embeds memory addresses)."""
+        if isinstance(value, str):
+            shown = value if len(value) <= 40 else value[:37] + "..."
+            return '"' + shown + '"'
+        if isinstance(value, JSFunction):
+            return f"function {value.name}" if value.name else "function"
+        if isinstance(value, JSArray):
+            return "[object Array]"
+        if isinstance(value, JSObject):
+            return "[object Object]"
+        if value is UNDEFINED or value is NULL or isinstance(value, (bool, int, float)):
+            return to_string(value)
+        return "function" if callable(value) else "value"
 
     def _get_source_location(self) -> Tuple[Optional[int], Optional[int]]:
         """Get the source location (line, column) for the current instruction."""
